@@ -190,7 +190,7 @@ public:
   }
 
   GAccumulator& operator-=(const T& rhs) {
-    base_type::update(rhs);
+    base_type::update(-rhs);
     return *this;
   }
 };
